@@ -1035,6 +1035,12 @@ func (g *gen) addStatus(qid t.QID, msg string, public bool) error {
 		fromThisPkg: qid[0] == 0,
 		public:      public,
 	}
+	// Different messages (e.g. "#a b" and "#a_b") can map to the same C name.
+	for _, y := range g.statusList {
+		if (y.cName == z.cName) && (y.msg != z.msg) {
+			return fmt.Errorf("status messages %q and %q map to the same C name %q", y.msg, z.msg, z.cName)
+		}
+	}
 	g.statusList = append(g.statusList, z)
 	g.statusMap[qid] = z
 	return nil
